@@ -77,6 +77,13 @@ Managed(t) == t \in {"elem", "elemB"}
 CTypes == {"raw", "plain", "elem", "elemB"}
 Marks(n) == [i \in 1..n |-> 9]
 PadT(s, n, t) == IF Len(s) >= n THEN s ELSE s \o (IF Managed(t) THEN Zeros(n - Len(s)) ELSE Marks(n - Len(s)))
+\* a slot of a managed buffer that was zero filled instead of constructed (default construction failed
+\* while filling an insert gap) is written 7: it is no element (not counted), copying it gives a default
+\* element, destroying it is a no-op
+Blank == 7
+Unblank(d) == [i \in 1..Len(d) |-> IF d[i] = Blank THEN 0 ELSE d[i]]
+GapF(g, df) == [i \in 1..g |-> IF df > 0 /\ i >= df THEN Blank ELSE 0]
+InsF(s, pos, d, df) == IF pos > Len(s) THEN s \o GapF(pos - Len(s), df) \o d ELSE Ins(s, pos, d)
 Null == [data |-> <<>>, size |-> 0, imm |-> FALSE, nc |-> FALSE, typ |-> "none"]
 NewRec(d, sz, t) == [data |-> d, size |-> sz, imm |-> FALSE, nc |-> FALSE, typ |-> t]
 IsNull(h) == rec[h].typ = "none"
@@ -103,7 +110,7 @@ DetF(h, len, fail, fm) ==
        THEN [ok |-> FALSE, same |-> TRUE, rec |-> r, cre |-> <<>>, fin |-> <<>>, ncopy |-> 0]
        ELSE LET c == IF ~Managed(r.typ) THEN r.data                                      \* bytes: no constructor
                      ELSE IF fm = 1 /\ fail >= 1 /\ fail <= used THEN FirstN(r.data, fail - 1)   \* fatal: copy stops
-                     ELSE Failed(r.data, fail) IN
+                     ELSE Failed(Unblank(r.data), fail) IN
             [ok |-> TRUE, same |-> FALSE,
              rec |-> [r EXCEPT !.size = AllocSize(len), !.imm = FALSE, !.data = c],
              cre |-> c, fin |-> <<>>, ncopy |-> IF Managed(r.typ) THEN used ELSE 0]
@@ -132,7 +139,7 @@ Answer(a, arg, ret, either) ==
                    lens |-> [g \in H |-> Len(val'[g])], typs |-> vtyp',
                    irefs |-> [k \in 1..NV |-> 1 + cnt'[k]],
                    nlive |-> LET RECURSIVE S(_) S(k) == IF k < 0 THEN 0 ELSE cnt'[k] + S(k - 1) IN S(NV),
-                   bad |-> 0, dead |-> 0, dup |-> 0, orph |-> 0, either |-> either],
+                   bad |-> 0, dead |-> 0, dup |-> 0, orph |-> 0, refok |-> "ok", either |-> either],
           mdl |-> [sizes |-> [g \in H |-> rec'[g].size],
                    refs |-> [g \in H |-> Cardinality(share'[g])],
                    imm |-> [g \in H |-> rec'[g].imm], nc |-> [g \in H |-> rec'[g].nc]]]
@@ -231,16 +238,17 @@ BInsOk(r, pos, n) ==
   total = 0 \/ (total <= r.size /\ ~r.imm)
 BInsCre(r, pos, d) == Zeros(IF pos > Len(r.data) THEN pos - Len(r.data) ELSE 0) \o d
 
-BufInsert(h, pos, d) ==
+BufInsert(h, pos, d, df) ==       \* df = k: the k-th default construction (gap slot) of the call fails
   LET r == rec[h] n == Len(d) used == Len(r.data)
-      arg == [h |-> h, pos |-> pos, data |-> d]
+      arg == [h |-> h, pos |-> pos, data |-> d, dfail |-> df]
       total == IF pos < used THEN used + n ELSE pos + n
+      nd == InsF(r.data, pos, d, df)
   IN
   /\ r.typ = "elem" /\ ~Shared(h)
   /\ IF total = 0 THEN NoChange("bufinsert", arg, "any")
      ELSE IF ~BInsOk(r, pos, n) THEN Refuse("bufinsert", arg, FALSE)
-     ELSE /\ InPlace(h, [r EXCEPT !.data = Ins(r.data, pos, d)])
-          /\ SetV(h, Ins(val[h], pos, d), "elem") /\ Account(BInsCre(r, pos, d), <<>>)
+     ELSE /\ InPlace(h, [r EXCEPT !.data = nd])
+          /\ SetV(h, nd, "elem") /\ Account((IF pos > used THEN GapF(pos - used, df) ELSE <<>>) \o d, <<>>)
           /\ ctr' = ctr + n
           /\ Answer("bufinsert", arg, "ok", FALSE)
 
@@ -295,7 +303,7 @@ Reserve(h, len, t, fail, v) ==
        \* the lost content; for element lifetime only the destructions matter)
        LET trunc == (v = 0)
                 src  == IF ~sameT \/ r.nc THEN <<>> ELSE IF short /\ trunc THEN FirstN(r.data, len) ELSE r.data
-                keep == IF Managed(t) THEN Failed(src, fail) ELSE src
+                keep == IF Managed(t) THEN Failed(Unblank(src), fail) ELSE src
        IN
             /\ v = 0 \/ (short /\ ~r.nc)
             /\ Private(h, NewRec(keep, AllocSize(Max(len, Len(keep))), t))
@@ -444,7 +452,7 @@ Init ==
   /\ obs = [a |-> "init", arg |-> [n |-> NH, grane |-> GranE, nv |-> NV, api |-> Api],
             exp |-> [ret |-> "ok", vals |-> [h \in H |-> <<>>], lens |-> [h \in H |-> 0],
                      typs |-> [h \in H |-> "none"], irefs |-> [k \in 1..NV |-> 1], nlive |-> 0,
-                     bad |-> 0, dead |-> 0, dup |-> 0, orph |-> 0, either |-> FALSE],
+                     bad |-> 0, dead |-> 0, dup |-> 0, orph |-> 0, refok |-> "ok", either |-> FALSE],
             mdl |-> [sizes |-> [h \in H |-> 0], refs |-> [h \in H |-> 1],
                      imm |-> [h \in H |-> FALSE], nc |-> [h \in H |-> FALSE]]]
 
@@ -468,7 +476,8 @@ NextC ==
            /\ A /\ (z = 1 => n > 0 /\ f = 0) /\ (fm = 1 => f > 0)
            /\ BufSet(h, pos, Data(n, z), z, f, fm)
      \/ \E off \in 0..MaxArg, n \in 0..MaxArg : A /\ BufCut(h, off, n)
-     \/ \E pos \in 0..MaxArg, n \in 0..MaxArg : A /\ BufInsert(h, pos, Fresh(n))
+     \/ \E pos \in 0..MaxArg, n \in 0..MaxArg, df \in 0..(IF Prune THEN 2 ELSE 1) :
+           A /\ (df > 0 => pos >= Used(h) + df) /\ BufInsert(h, pos, Fresh(n), df)
      \/ \E pos \in 0..MaxArg, n \in 0..MaxArg, f \in Fails(h, 0), v \in {0, 1} :
            A /\ ArrInsert(h, pos, Fresh(n), f, v)
      \/ \E off \in 0..MaxArg, n \in 0..MaxArg, f \in Fails(h, 0) :
@@ -503,7 +512,7 @@ TypeOK ==
                /\ Len(rec[h].data) <= rec[h].size
                /\ h \in share[h]
                /\ \A i \in 1..Len(rec[h].data) :
-                     IF Managed(rec[h].typ) THEN rec[h].data[i] \in V ELSE rec[h].data[i] = 9
+                     IF Managed(rec[h].typ) THEN rec[h].data[i] \in V \cup {Blank} ELSE rec[h].data[i] = 9
 
 AliasOK ==
   \A h \in H : /\ \A g \in share[h] : rec[g] = rec[h] /\ share[g] = share[h]
